@@ -15,6 +15,7 @@ import DrummerVerif.Lemmas.C01P
 import DrummerVerif.Lemmas.Cadence
 import DrummerVerif.Lemmas.Renew
 import DrummerVerif.Lemmas.Rounds
+import DrummerVerif.Lemmas.C01F
 /-!
 # C01 — self-healing: the control loop restores every shard after faults stop (PARTIAL: safety invariants and per-round progress lemmas; the convergence bound is decided by the correspondence run, see DESIGN.md)
 
@@ -541,6 +542,51 @@ theorem crashed_member_is_healed_again :
                                         Loop.report (Loop.execute l2 m.address) m.address lost = Outcome.ok (l4, k4) →
                                           Loop.Settled l4 ∧ Loop.AllRunning l4 :=
   @_root_.Drummer.crashed_member_is_healed_again
+
+/-! ### healed again - a whole NodeHost
+
+The same closure for a NodeHost that crashed with EVERY replica it ran (one per shard, any number of shards) and came back
+with the data: `DB.OneHostDown d a spec` says every view is healthy or has exactly the member on `a` classified failed
+(nobody waiting, a majority healthy, the member's log on `a`'s record `spec`, the shard defined). The round is then one
+restore request per affected shard, all addressed to `a` (`round_after_a_nodehost_crash`), and after `a`'s report, its
+execution of the whole batch and its next report the fleet is settled and every member of every group is running
+(`crashed_nodehost_is_healed_again`). Kernel-evaluated instance with two shards: `Props/WitnessFleet.healedAgain`. -/
+
+theorem round_after_a_nodehost_crash :
+    ∀ (d : DB) (cx : Ctx), CtxOnce d cx → ∀ (draws rest : List Nat) (rs : List Request),
+      maintain cx draws = SRes.ok rs rest → (∀ c ∈ d.image.shards, Shard.IdsOK c) → d.image.toKill = [] →
+        ∀ (a : Addr) (spec : HostSpec), hostFind? d.hosts a = some spec → HostSpec.available spec d.tick = true →
+          DB.OneHostDown d a spec →
+            rest = draws ∧ (rs.map (·.shardId)).Nodup ∧
+            (∀ r ∈ rs, ∃ c ∈ d.image.shards, ∃ m app, Shard.failedReplicas c d.tick = [m] ∧ m.address = a ∧
+              r = createReq m c app false true) ∧
+            (∀ c ∈ d.image.shards, ∀ m, Shard.failedReplicas c d.tick = [m] → ∃ app, createReq m c app false true ∈ rs) :=
+  @_root_.Drummer.round_is_restores
+
+theorem crashed_nodehost_is_healed_again :
+    ∀ (l : Loop), Loop.Settled l →
+      ∀ (cx : Ctx), CtxOnce l.db cx → ∀ (draws rest : List Nat) (rs : List Request), maintain cx draws = SRes.ok rs rest →
+        ∀ (db' : DB) (n : Nat), DB.applyRequests l.db rs = Outcome.ok (db', n) →
+          (∀ c ∈ l.db.image.shards, Shard.IdsOK c) →
+            ∀ (a : Addr) (spec : HostSpec), hostFind? l.db.hosts a = some spec → HostSpec.available spec l.db.tick = true →
+              DB.OneHostDown l.db a spec →
+                ∀ (c0 : Shard), c0 ∈ l.db.image.shards → ∀ (m0 : Replica), Shard.failedReplicas c0 l.db.tick = [m0] →
+                  ∀ (h : Host), Loop.host? l a = some h → h.up = true →
+                    (∀ c ∈ l.db.image.shards, ∀ m, Shard.failedReplicas c l.db.tick = [m] → Host.run? h c.shardId = none ∧
+                      ∃ g, Loop.group? l c.shardId = some g ∧ g.hist ≠ [] ∧
+                        Host.dataGet h c.shardId m.replicaId = some ((g.hist.length : Int) - 1)) →
+                      (∀ g' ∈ l.groups, ∀ p ∈ (Group.cur g').members,
+                        (∃ c ∈ l.db.image.shards, ∃ m, c.shardId = g'.shard ∧ Shard.failedReplicas c l.db.tick = [m] ∧
+                          p = (m.replicaId, m.address)) ∨
+                        (p.2 ≠ a ∧ ∃ h', Loop.host? l p.2 = some h' ∧ h'.up = true ∧
+                          ∃ rep, Host.run? h' g'.shard = some rep ∧ rep.id = p.1)) →
+                        ∀ (l2 : Loop) (k : Nat),
+                          Loop.report { db := db', hosts := l.hosts, groups := l.groups, nextVer := l.nextVer, regions := l.regions }
+                              a false = Outcome.ok (l2, k) →
+                            ∀ (lost : Bool) (l4 : Loop) (k4 : Nat),
+                              Loop.report (Loop.execute l2 a) a lost = Outcome.ok (l4, k4) →
+                                Loop.Settled l4 ∧ Loop.AllRunning l4 :=
+  @_root_.Drummer.crashed_nodehost_is_healed_again
 
 /-- where "Drummer holds the NodeHost's log record" comes from: the first report of a NodeHost after it came back (and every
 third one) announces its persisted logs; afterwards the replicated state has a record under the NodeHost's address,
